@@ -193,3 +193,8 @@ func vCall(env *Zlisp, name string, args ...Sexp) (res Sexp, err error) {
 // placeholder instead of forking on the number of digits.  Used by harnesses
 // whose assertions never depend on message text.  Natively a no-op.
 func vFormatOpaque(on bool) {}
+
+// vBudgetOK declares that running out of the engine's step budget on this
+// path is acceptable (the program under test legitimately does not
+// terminate); without it a budget hit makes the check fail.
+func vBudgetOK() {}
